@@ -54,6 +54,10 @@ func nestedSpecs(r *Run, detach bool, oracles []string) []Spec {
 			// external group once it exceeds the per-element limit
 			Spec{Name: "nested-coll-parent", Kind: "nested", T: 256, Keys: 2, Classes: []string{"h", "A"}, Oracles: oracles, Digests: map[string][4]uint64{"0": {5, 1, 1, 1}, "1": {5, 2, 1, 1}}, Limit: 255,
 				Extra: func() map[string]int { m := ex2(1, 2, 2, 3, 2); m["limit"] = 1; m["nocdrop"] = 1; return m }()},
+			// ... and the two keys collide on EVERY digest level (digest-less list), the children wrapped: a child that
+			// changes re-sets a wrapper around the same child object
+			Spec{Name: "nested-coll-list-wrapped", Kind: "nested", T: 256, Keys: 2, Classes: []string{"h", "s:A", "s:M"}, Oracles: oracles, Digests: map[string][4]uint64{"0": {5, 5, 5, 5}, "1": {5, 5, 5, 5}}, Limit: 255,
+				Extra: func() map[string]int { m := ex2(1, 2, 2, 3, 2); m["limit"] = 1; m["nocdrop"] = 1; return m }()},
 			Spec{Name: "nested-two-handles", Kind: "nested", T: 256, Keys: 2, Classes: []string{"t", "A", "M"}, Oracles: oracles, Extra: exTwo(0, 2, 3, 2, 2)},
 			Spec{Name: "nested-two-handles-map", Kind: "nested", T: 256, Keys: 2, Classes: []string{"t", "A", "M"}, Oracles: oracles, Extra: exTwo(1, 2, 3, 2, 2)},
 			Spec{Name: "nested-parent-split", Kind: "nested", T: 256, Keys: 2, Classes: []string{"limA", "s30", "A"}, Oracles: oracles, Extra: ex2(0, 4, 3, 2, 2)},
